@@ -90,7 +90,7 @@ func c08FrameGens() []c08Gen {
 				emit(c08FrameValue{f: &StopSendingFrame{StreamID: protocol.StreamID(a), ErrorCode: qerr.StreamErrorCode(b)}, valid: true})
 			}
 		}
-		for _, n := range c08StreamCounts {
+		for _, n := range c08StreamCountsNarrow {
 			for _, t := range []protocol.StreamType{protocol.StreamTypeBidi, protocol.StreamTypeUni} {
 				rej := ""
 				if n > 1<<60 {
@@ -109,7 +109,7 @@ func c08FrameGens() []c08Gen {
 	for _, sid := range B {
 		sid := sid
 		gens = append(gens, func(_ bool, emit c08Emit) {
-			c08Product([][]uint64{B, B, B}, func(v []uint64) {
+			c08Product([][]uint64{B, c08SizesNarrow, c08SizesNarrow}, func(v []uint64) {
 				rej := ""
 				if v[2] > v[1] {
 					rej = "final size below reliable size"
@@ -155,6 +155,7 @@ func c08FrameGens() []c08Gen {
 		})
 	}
 	gens = append(gens, c08AckGens()...)
+	gens = append(gens, c08NarrowFrameGens()...)
 	return gens
 }
 
@@ -324,7 +325,11 @@ func c08FrameLatticePart() c08PartSpec {
 				}
 				c.sample("%s -> %x", c08FrameString(x.f), enc)
 				_, typeLen, _ := c08RefVarint(enc)
-				c08MutationsLimit(enc, len(enc), func(m []byte, pos int) {
+				mutLimit := len(enc)
+				if x.mutHead > 0 {
+					mutLimit = x.mutHead
+				}
+				c08MutationsLimit(enc, mutLimit, func(m []byte, pos int) {
 					v := c08Versions[pos%2]
 					if (c.thorough && !x.light) || pos < typeLen {
 						for _, g := range full {
@@ -338,7 +343,7 @@ func c08FrameLatticePart() c08PartSpec {
 					for _, g := range full {
 						c.checkFrameBytes(g, w, protocol.Version1)
 					}
-					if c.thorough && !x.light {
+					if c.thorough && !x.light && x.mutHead == 0 {
 						c08MutationsLimit(w, len(w), func(m []byte, pos int) {
 							c.checkFrameBytes(oneRTT, m, c08Versions[pos%2])
 						})
@@ -347,5 +352,17 @@ func c08FrameLatticePart() c08PartSpec {
 			})
 		}
 	}
-	return c08PartSpec{chunks: chunks, bound: fmt.Sprintf("%d chunks: every frame type, every field from {0,1,63,64,16383,16384,2^30-1,2^30,2^62-1} (stream counts also 2^60-1,2^60,2^60+1; data lengths {0,1,63,64}, STREAM also 127,128), ACK <= 3 ranges; every prefix and every single-byte substitution {00,ff,b^80,b+1} of every encoding; all-varints-widened-to-8-bytes variant of every encoding", len(chunks))}
+	// raw frames whose length / count field aliases a small value after narrowing
+	chunks = append(chunks, func(c *c08Ctx) {
+		full := make([]c08FrameCfg, len(c08Levels))
+		for i, lvl := range c08Levels {
+			full[i] = c08FullCfg(lvl)
+		}
+		c08RawLengthAliases(func(b []byte) {
+			for i, g := range full {
+				c.checkFrameBytes(g, b, c08Versions[i%2])
+			}
+		})
+	})
+	return c08PartSpec{chunks: chunks, bound: fmt.Sprintf("%d chunks: every frame type, every field from {0,1,63,64,16383,16384,2^30-1,2^30,2^62-1} (stream counts also 2^60-1,2^60,2^60+1,2^60+2^8,2^60+2^16+1,2^60+2^31,2^60+2^32,2^61,2^62-1; RESET_STREAM_AT sizes also 2^8,2^16,2^32; data lengths {0,1,63,64}, STREAM also 127,128; data lengths 257 and 65537 for one value per data-carrying frame type), ACK <= 3 ranges; every prefix and every single-byte substitution {00,ff,b^80,b+1} of every encoding (first 24 bytes for the 257/65537 byte values); all-varints-widened-to-8-bytes variant of every encoding; raw STREAM/CRYPTO/NEW_TOKEN/DATAGRAM/CONNECTION_CLOSE/ACK frames whose length or range count claims v + k*2^w (v in {0,1,5}, w in {8,16,32}, k in {1,2}) with v, v+1, v+9 bytes following", len(chunks))}
 }
